@@ -112,6 +112,39 @@ def leakFields : List (String × String) := [
   ("internal/mapper", "srcCtorParams"), ("internal/mapper", "destCtorParams"),
   ("internal/mapper", "getsetMethods"), ("internal/mapper", "destGetSetMethods")]
 
+/-! ## Unconditional per-type re-initialisation (checked against `Facts.genStateResets` / `Facts.genStateCalls`)
+
+`C08_reset_sites` accepts any plain assignment or hand-over by address inside a per-type entry point - also one that sits
+under a condition (`if *tagMap == nil { *tagMap = make(…) }` re-makes the map for the first type only).  The tables below are
+stricter: a reset counts only when it is a statement at the TOP LEVEL of its method body, and the method is `MakeData` or is
+reached from `MakeData` through top-level calls only. -/
+
+/-- a map, slice or set type, by its printed form (`map[…]…`, `[]…`, `shoot.Set[…]`) -/
+def isCollection (ty : String) : Bool :=
+  "map[".toList.isPrefixOf ty.toList || "[]".toList.isPrefixOf ty.toList || "shoot.Set[".toList.isPrefixOf ty.toList
+
+def calleesOf (calls : List (String × String × String)) (pkg fn : String) : List String :=
+  (calls.filter (fun c => c.1 = pkg && c.2.1 = fn)).map (·.2.2)
+
+/-- the methods reached from `fs` through at most `n` unconditional (top-level) calls -/
+def reachFrom (calls : List (String × String × String)) (pkg : String) : Nat → List String → List String
+  | 0, fs => fs
+  | n + 1, fs => reachFrom calls pkg n (fs ++ (fs.flatMap (calleesOf calls pkg)).filter (fun f => !fs.contains f))
+
+/-- resets that follow a conditional `return` of their method, with the reason they still count:
+    constructor.parseFields returns nil early exactly when the type does not exist, which MakeData turns into a Fatal -/
+def afterReturnOK : List (String × String × String) :=
+  [("internal/constructor", "parseFields", "fields"), ("internal/constructor", "parseFields", "typeParams"),
+   ("internal/constructor", "parseFields", "typeParamsMap")]
+
+/-- the field is re-initialised by a top-level statement of `MakeData` or of a method that `MakeData` reaches through
+    top-level calls only - for every type, whatever the field holds; no conditional `return` of that method comes first
+    (except the listed ones) -/
+def hasUncondReset (resets : List (String × String × String × String × Nat)) (calls : List (String × String × String))
+    (pkg field : String) : Bool :=
+  resets.any (fun r => r.1 = pkg && r.2.2.1 = field && (reachFrom calls pkg 4 ["MakeData"]).contains r.2.1
+    && (r.2.2.2.2 = 0 || afterReturnOK.contains (pkg, r.2.1, field)))
+
 /-! ## Regions: is the carried state *relevant* for a type? -/
 
 /-- `hasNew` left true by an earlier type changes NewT's parameters exactly when this type has no mark
